@@ -388,6 +388,59 @@ fn type_faults_sweep(tier: Tier) -> Sweep {
     )
 }
 
+// Type faults whose range spans several lines, placed after k preceding lines for every k around the
+// places where the width of the line numbers changes (9 -> 10, 99 -> 100, 999 -> 1000): the excerpt
+// shows several numbered lines whose numbers have different widths.
+fn multiline_faults_sweep() -> Sweep {
+    const SHAPES: [(&str, &str); 5] = [
+        // the operand is written in parentheses; the diagnostic may cover it with or without them
+        ("if (@) then 1 else 2", "1 +\n  2 +\n  3"),
+        ("(x : (@)) => x", "1 +\n    2"),
+        ("k : (int -> int) = (n : int) => n; k (@)", "(1 +\n 2) <\n 3"),
+        ("é = 1; if (@) then é else 2", "é *\n\t2 *\n\t3 *\n\t4"),
+        ("b : bool = (@); b", "1 -\r\n 2"),
+    ];
+    let mut ks: Vec<usize> = (0..=12).collect();
+    ks.extend(94..=101);
+    ks.extend(995..=1001);
+    let ks = Rc::new(ks);
+    let k2 = ks.clone();
+    Sweep::new(
+        "type faults with multi-line ranges after k preceding lines (line-number widths change inside the excerpt)",
+        (ks.len() * SHAPES.len() * 2) as u64,
+        move |idx| {
+            let i = idx as usize;
+            let (context, target) = SHAPES[(i / 2) % SHAPES.len()];
+            let k = ks[i / (2 * SHAPES.len())];
+            let filler = if i % 2 == 0 { "\n" } else { "# é\n" };
+            let text = format!("{}{}", filler.repeat(k), context.replace('@', target));
+            let start = text.find(target).unwrap();
+            let end = start + target.len();
+            count!("evaluations");
+            count!("multiline_faults");
+            crate::props::sem::front_end(&text, |f| match f {
+                crate::props::sem::FrontEnd::Rejected { stage: "type_check", messages, .. } => {
+                    let mut last = String::new();
+                    for m in &messages {
+                        match points_at(&text, m, start, end) {
+                            Ok(()) => {
+                                count!("multiline_fault_ok");
+                                count!("nontrivial");
+                                return;
+                            }
+                            Err(e) => last = e,
+                        }
+                    }
+                    violation("multi-line-fault-range", &text[text.len() + 1 - context.len() - target.len()..], &format!("after {k} lines: a diagnostic marking exactly the {}-line operand", target.lines().count()), &format!("{} diagnostics, none points there; last: {last}", messages.len()));
+                }
+                crate::props::sem::FrontEnd::Panic { message, .. } => violation("panic", &text, "diagnostics", &message),
+                _ => crate::infra::machinery(&format!("multi-line fault program is not rejected by the type checker: {:?}", &text[text.len().saturating_sub(80)..])),
+            });
+        },
+        move |idx| format!("shape {} after {} lines", (idx as usize / 2) % SHAPES.len(), k2[idx as usize / (2 * SHAPES.len())]),
+    )
+}
+
 // (b) range bookkeeping: the source range of every node of the parse result denotes that node.
 fn visit<'a>(t: &crate::term::Term<'a>, depth: usize, f: &mut impl FnMut(&crate::term::Term<'a>, usize)) {
     use crate::term::Variant as V;
@@ -553,6 +606,7 @@ impl Prop for C15 {
             ranges_sweep("node ranges, full alphabet", g.clone(), 1, tier.pick(5, 6)),
             ranges_sweep("node ranges, class alphabet", class, 6, tier.pick(7, 8)),
             type_faults_sweep(tier),
+            multiline_faults_sweep(),
         ];
         for (name, sg) in c07::slices(&g) {
             if name == "binders" || name == "let-groups" {
@@ -567,7 +621,7 @@ impl Prop for C15 {
     fn evidence(&self, tier: Tier) -> EvidenceSpec {
         EvidenceSpec {
             level: "exploration",
-            rule: "(a) error::listing on every text up to 5/6 fragments over {a, é, 4-byte letter, space, tab, LF, CRLF} and every range on character boundaries, compared with the specification (lines intersecting the range, 1-based numbers, marked character columns); (b) for every node of the parse result of every sentence up to the bounds, the node's source range is inside the file and its text re-parses to that node; (c) every sentence up to the bounds in 9 layouts (fault on line 1 / 2 / 9 / 10 so that the gutter widens, after a non-ASCII comment, after 2- and 4-byte identifiers on the same line, broken over lines wherever the line-break rule allows, CRLF+tab continuation lines) with planted faults: every use unbound, every binder re-bound to an enclosing binder's name (all binder forms), a stray symbol ($, a combining mark, a 4-byte emoji) in every gap; type faults: into every operand / condition / annotation / function-type domain and codomain / applicand position of every type-directed program up to 5 [6] nodes an atom of a wrong class with a unique spelling is planted (plain and after non-ASCII text on the same line) and some diagnostic must mark exactly it; the diagnostic's listing must mark exactly the planted identifier / symbol (or the parentheses that enclose nothing else). evaluations = texts + sentences x layouts".to_owned(),
+            rule: "(a) error::listing on every text up to 5/6 fragments over {a, é, 4-byte letter, space, tab, LF, CRLF} and every range on character boundaries, compared with the specification (lines intersecting the range, 1-based numbers, marked character columns); (b) for every node of the parse result of every sentence up to the bounds, the node's source range is inside the file and its text re-parses to that node; (c) every sentence up to the bounds in 9 layouts (fault on line 1 / 2 / 9 / 10 so that the gutter widens, after a non-ASCII comment, after 2- and 4-byte identifiers on the same line, broken over lines wherever the line-break rule allows, CRLF+tab continuation lines) with planted faults: every use unbound, every binder re-bound to an enclosing binder's name (all binder forms), a stray symbol ($, a combining mark, a 4-byte emoji) in every gap; type faults: into every operand / condition / annotation / function-type domain and codomain / applicand position of every type-directed program up to 5 [6] nodes an atom of a wrong class with a unique spelling is planted (plain and after non-ASCII text on the same line) and some diagnostic must mark exactly it; 280 type faults whose operand is written over two to four lines (LF, CRLF, tab-indented, after non-ASCII text) are placed after k preceding lines for every k in 0..12, 94..101 and 995..1001, so that the excerpt's line numbers change width inside it; the diagnostic's listing must mark exactly the planted identifier / symbol (or the parentheses that enclose nothing else). evaluations = texts + sentences x layouts".to_owned(),
             assumptions: vec![
                 "a diagnostic for a parenthesised operand may cover the operand with or without the parentheses that enclose it and nothing else".to_owned(),
                 "type faults are planted only where the context fixes the expected class (operands, conditions, annotations, applicands) and with uniquely spelled atoms, so the offending subexpression is known by construction".to_owned(),
